@@ -137,7 +137,11 @@ func (o OneOfSchema[KeyType]) UnserializeType(data any) (result any, err error) 
 	}
 	unserializedMap, ok := unserializedData.(map[string]any)
 	if ok {
-		unserializedMap[o.DiscriminatorFieldNameValue] = discriminator
+		if !o.DiscriminatorInlined {
+			// The member does not declare the discriminator; record it in its typed form, the one
+			// Validate and Serialize look for. (An inlined discriminator was unserialized by the member.)
+			unserializedMap[o.DiscriminatorFieldNameValue] = typedDiscriminator
+		}
 		return unserializedMap, nil
 	}
 	return saveConvertTo(unserializedData, o.ReflectedType())
